@@ -40,8 +40,16 @@ def run(prog: Program, rep: Report, tier: str):
     if miss is None:
         rep.violated("R16.1", cls.qualname, cls.loc, "TypeContext has no __missing__: lookups do not see through aliases or references")
         return
-    ps = P.paths_of(prog, miss)
+    ps = P.splice_helpers(prog, P.paths_of(prog, miss), cls=cls)
     q = miss.qualname
+    # (private methods which only the lookup hook calls are part of it: their events are spliced in above)
+    import ast as _ast
+
+    def _self_calls(fn):
+        return {n.func.attr for n in _ast.walk(fn.node) if isinstance(n, _ast.Call) and isinstance(n.func, _ast.Attribute) and isinstance(n.func.value, _ast.Name) and n.func.value.id == "self"}
+
+    hook_helpers = {n for n in _self_calls(miss) if n.startswith("_") and not n.startswith("__") and n in cls.methods}
+    hook_helpers -= {n for name, m in cls.methods.items() if name != "__missing__" and name not in hook_helpers for n in _self_calls(m)}
     # R16.2
     fr_raise = [p for p in ps if p.exit[0] == "raise" and T.is_call_to(p.exit[1], "builtins.KeyError") and any(pol and T.is_call_to(g, "builtins.isinstance") and g[2] == (KEY, ("ref", "typing.ForwardRef")) for g, pol in p.guards())]
     rep.check(bool(fr_raise), "R16.2", q, miss.loc, "a missed ForwardRef key raises KeyError", "a missed ForwardRef key does not raise KeyError", detail="raise")
@@ -73,7 +81,7 @@ def run(prog: Program, rep: Report, tier: str):
     for name, m in cls.methods.items():
         for p in P.paths_of(prog, m):
             for e in p.events:
-                if e[0] in ("delete",) or (e[0] == "setitem" and e[1] == SELF and name != "__missing__") or (e[0] == "setattr" and e[1] == SELF):
+                if e[0] in ("delete",) or (e[0] == "setitem" and e[1] == SELF and name != "__missing__" and name not in hook_helpers) or (e[0] == "setattr" and e[1] == SELF):
                     other.append(f"{name}: {e[0]}")
             for c in p.calls():
                 if c[1][0] == "attr" and c[1][1] == SELF and c[1][2] in ("pop", "popitem", "clear", "update", "setdefault", "__delitem__", "__setitem__"):
